@@ -354,7 +354,7 @@ fn c01_program(ctx: &mut Ctx) {
 pub fn c01() -> Property {
     Property {
         id: "C01",
-        rule: "(a) single-call sweep: entry chosen from a table of 100 public entry points producing a TwoFloat (constructors, 25 operator/assignment forms, utility/rounding methods, 13 integer/float conversions, trait routes, all elementary functions, 29 constants); operands valid with hi = 0 or in [2^-1000,2^1000]: whole-range, moderate, pivots of the range switches (±709, -1074..-1020, 1023, k*pi/4, 2^52, 2^53, 32.25 ...) with ulp/2^-j offsets, rounding-function operands, deep-negative exponents for exp/exp2, edge exponents; f64/int/128-bit tie-family arguments. (b) programs: 4 registers and up to 48 instructions over the same table, invariant after every step, a result leaving the operand domain is replaced by a fresh valid value (counted). Oracle: hi finite => lo finite and hi + lo == hi (hardware, cross-checked by exact rounding). non-trivial = finite result with non-zero low word (sweep); a chain of >= 3 steps on operands produced by earlier steps (programs); distinct = distinct (entry, operand bits) / instruction words",
+        rule: "(a) single-call sweep: entry chosen from a table of 101 public entry points producing a TwoFloat (constructors, 25 operator/assignment forms, utility/rounding methods, 13 integer/float conversions, trait routes, all elementary functions, 29 constants); operands valid with hi = 0 or in [2^-1000,2^1000]: whole-range, moderate, pivots of the range switches (±709, -1074..-1020, 1023, k*pi/4, 2^52, 2^53, 32.25 ...) with ulp/2^-j offsets, rounding-function operands, deep-negative exponents for exp/exp2, edge exponents; f64/int/128-bit tie-family arguments. (b) programs: 4 registers and up to 48 instructions over the same table, invariant after every step, a result leaving the operand domain is replaced by a fresh valid value (counted). Oracle: hi finite => lo finite and hi + lo == hi (hardware, cross-checked by exact rounding). non-trivial = finite result with non-zero low word (sweep); a chain of >= 3 steps on operands produced by earlier steps (programs); distinct = distinct (entry, operand bits) / instruction words",
         assumptions: vec!["a panic produces no TwoFloat and is only counted here (totality is claimed by C13-C15, C18)".into()],
         subchecks: vec![
             SubCheck { name: "sweep", kind: Kind::Generated { words: 120, max_items: 0 }, eval: c01_sweep, quick: 3_000_000, thorough: 150_000_000 },
@@ -507,7 +507,7 @@ fn c11_fma(ctx: &mut Ctx) {
 pub fn c11() -> Property {
     Property {
         id: "C11",
-        rule: "differential: the same table of 98 entry points instantiated for the default-features build and for a renamed copy of /repo's working tree built with default-features = false, features = [math_funcs] (libm::fma), linked into one process and called with identical operand words (the C01 sweep operands, 1/8 with wild operands); the fma backends reported by the two builds are recorded. Direct: each build's internal fma against RN(x*y+z) computed exactly, on adversarial triples (z = -RN(xy), ±k ulp, midpoint traps, gaps up to 1100 binades, subnormal results, inf/NaN). non-trivial = entry depends on fma and the result is finite non-zero (differential); x*y+z inexact (direct); distinct = distinct (entry, operand bits)",
+        rule: "differential: the same table of 101 entry points instantiated for the default-features build and for a renamed copy of /repo's working tree built with default-features = false, features = [math_funcs] (libm::fma), linked into one process and called with identical operand words (the C01 sweep operands, 1/8 with wild operands); the fma backends reported by the two builds are recorded. Direct: each build's internal fma against RN(x*y+z) computed exactly, on adversarial triples (z = -RN(xy), ±k ulp, midpoint traps, gaps up to 1100 binades, subnormal results, inf/NaN). non-trivial = entry depends on fma and the result is finite non-zero (differential); x*y+z inexact (direct); distinct = distinct (entry, operand bits)",
         assumptions: vec![
             "the MinGW target cannot be built here; it selects the same libm::fma definition as the no_std build, which is exercised".into(),
             format!("fma backends linked into this process: default build = {}, no_std build = {}", std_build::BACKEND, nostd_build::BACKEND),
